@@ -156,13 +156,18 @@ def read (r : R2) (len : Nat) : R2 × ByteArray × RStat :=
   | none => readLoop len (2 * len + r.inp.size + 4) r ByteArray.empty
 
 /-- `Reader2Config{DictCap: cfgCap}.NewReader2` on the whole input -/
-def newReader2 (cfgCap : Nat) (inp : ByteArray) : R2 :=
+def newReader2At (cfgCap : Nat) (inp : ByteArray) (pos : Nat) : R2 :=
   let cap := if cfgCap = 0 then 8 * 1024 * 1024 else cfgCap
   let l : LSt := { p := ⟨0, 0, 0⟩, tbl := #[], rd := { range := 0, code := 0, inp := [] }, dict := DDict.new cap, size := none }
-  let r : R2 := { inp := inp, pos := 0, l := l }
+  let r : R2 := { inp := inp, pos := pos, l := l }
   match startChunk r with
   | (r', .ok) => r'
   | (r', st) => { r' with err := some st }
+
+def newReader2 (cfgCap : Nat) (inp : ByteArray) : R2 := newReader2At cfgCap inp 0
+
+/-- position of the underlying source: inside an LZMA chunk the byte reader has consumed what the range decoder took -/
+def R2.srcPos (r : R2) : Nat := if r.cur = .lz then r.segEnd - r.l.rd.inp.length else r.pos
 
 def readSeq : R2 → List Nat → List (ByteArray × RStat)
   | _, [] => []
